@@ -148,6 +148,10 @@ func (g *VerifGroup) VerifLen() int { return len(g.entries) }
 
 func (g *VerifGroup) VerifSetReady(r bool) { g.ready = r }
 
+// VerifTerminatedSeen reports whether Sends to terminated machines return ErrTerminated on this run
+// (the machine's goroutine has exited) rather than nil (event queued and dropped).
+func (g *VerifGroup) VerifTerminatedSeen() bool { return g.termAsked && g.termSeen }
+
 func (g *VerifGroup) Begin(id interface{}, userState interface{}) error {
 	if !g.ready {
 		return errVerifNotReady
